@@ -258,7 +258,7 @@ func collectTVarFTypeWithSet(visited SSet, ft FType) []string {
 		ut := _v9.Value
 		uname := utName(ut)
 		return frt.IfElse(SSetHasKey(visited, uname), (func() []string {
-			return slice.New[string]()
+			return frt.Pipe(ut.Targs, (func(_r0 []FType) []string { return slice.Collect(recurse, _r0) }))
 		}), (func() []string {
 			SSetPut(visited, uname)
 			return frt.Pipe(frt.Pipe(utCases(ut), (func(_r0 []NameTypePair) []FType {
